@@ -57,6 +57,7 @@ class Event:
     node: Any = None
     func: str = ""
     depth: int = 0  # inlining depth at which the event occurred
+    ctx: Tuple[str, ...] = ()  # enclosing with-contexts (e.g. 'self._lock')
 
     @property
     def lineno(self) -> int:
@@ -74,6 +75,7 @@ class LoopInfo:
     cond: Optional[Term] = None
     node: Any = None
     guard: Term = T.TRUE
+    live_out: Term = T.TRUE  # condition under which an iteration runs to its end (no break/continue/return taken)
 
 
 @dataclass
@@ -127,6 +129,7 @@ class SymEval:
         self._uid = 0
         self.live: Term = T.TRUE
         self.loop_stack: Tuple[int, ...] = ()
+        self.ctx_stack: Tuple[str, ...] = ()
         self.depth = 0
         self.heap: Dict[Tuple[Term, str], Term] = {}
         self.types: Dict[Term, str] = {}  # term -> class qualname (light typing for property/method resolution)
@@ -144,7 +147,7 @@ class SymEval:
 
     def emit(self, kind, name, term, node, frame, **kw) -> Event:
         ev = Event(len(self.events), kind, name, term, guard=self.live, loops=self.loop_stack, node=node,
-                   func=frame.func if frame else "", depth=self.depth, **kw)
+                   func=frame.func if frame else "", depth=self.depth, ctx=self.ctx_stack, **kw)
         self.events.append(ev)
         return ev
 
@@ -436,10 +439,11 @@ class SymEval:
             self.live = T.mk_and([live0, cond_t])
         self.exec_block(st.body, frame)
         env_out = dict(frame.env)
+        live_out = self.live
         self.loop_stack = self.loop_stack[:-1]
         self.live = live0
         self.loops[lid] = LoopInfo(lid, kind, iter_term, _dotted(target) if target is not None else None,
-                                   {n: v for n, v in env_in.items() if n in pre_env}, env_out, cond_t, st, live0)
+                                   {n: v for n, v in env_in.items() if n in pre_env}, env_out, cond_t, st, live0, live_out)
         # after the loop: assigned names are unknown
         for n in names:
             frame.env[n] = T.sym(f"loopout{lid}:{n}")
@@ -457,11 +461,14 @@ class SymEval:
         self._loop("while", st, frame, None, None, cond_ast=st.test)
 
     def st_With(self, st, frame):
+        saved = self.ctx_stack
         for item in st.items:
             v = self.eval(item.context_expr, frame)
+            self.ctx_stack = self.ctx_stack + (T.show(v)[:80],)
             if item.optional_vars is not None:
                 self.assign(item.optional_vars, v, frame, st)
         self.exec_block(st.body, frame)
+        self.ctx_stack = saved
 
     def st_Try(self, st, frame):
         tid = self.uid()
@@ -833,6 +840,19 @@ class SymEval:
                 kwargs.append(("**", self.eval(k.value, frame)))
             else:
                 kwargs.append((k.arg, self.eval(k.value, frame)))
+        # local list accumulation: x = []; ...; x.append(v)  ->  x becomes an 'accum' term that remembers what was
+        # appended under which guard (the list object is local, so this is not an effect)
+        if method in ("append", "extend") and isinstance(e.func.value, ast.Name) and recv is not None \
+                and recv[0] in ("list", "accum") and len(args) == 1 and not kwargs and frame.lookup(e.func.value.id) is recv:
+            base, items = (recv, ()) if recv[0] == "list" else (recv[1], recv[2])
+            item = ("acc_item", self.live, args[0], self.loop_stack, method)
+            new = ("accum", base, items + (item,))
+            f = frame
+            while f is not None and e.func.value.id not in f.env:
+                f = f.parent
+            (f or frame).env[e.func.value.id] = new
+            self.emit("local_append", e.func.value.id, args[0], e, frame, recv=recv)
+            return T.NONE
         return self.call(fterm, args, kwargs, e, frame, recv=recv, method=method)
 
     def fname(self, fterm: Term) -> str:
